@@ -95,6 +95,11 @@ func (fr *Frame) callWith(st *State, c *ssa.CallCommon, args []Val, site ssa.Ins
 			if ci := vc.closures[fv.S[0]]; ci != nil {
 				callee = ci.fn
 				freeVars = ci.bindings
+			} else if ld, ok := c.Value.(*ssa.UnOp); ok {
+				// call through a package-level function variable: contract by variable name
+				if g, ok := ld.X.(*ssa.Global); ok && g.Pkg != nil {
+					key = g.Pkg.Pkg.Name() + "." + g.Name()
+				}
 			}
 		}
 		if callee != nil {
@@ -410,6 +415,18 @@ func (fr *Frame) applyContract(st *State, ct *Contract, callee *ssa.Function, si
 	if envFn == nil {
 		envFn = fr.fn
 	}
+	if ct.Getter {
+		vc.trusted["getter:"+ct.Key+" (result depends on the receiver/arguments only)"] = true
+		res := vc.getterUF(ct.Key, args, rt)
+		vc.assume(st, vc.wellTyped(st, res))
+		env := &SEnv{vc: vc, fr: fr, fn: envFn, cur: st, old: st, vars: map[string]Val{}, ct: ct, assumeMode: true}
+		bindParams(env, paramNames(callee, sig, callee == nil), args)
+		env.results = splitResults(vc, res, sig)
+		for _, en := range ct.Ensures {
+			vc.assume(st, env.evalBool(en.Expr))
+		}
+		return res
+	}
 	if ct.Pure && callee != nil {
 		res := vc.pureUF(callee, ct, args)
 		// requires are still checked
@@ -477,6 +494,29 @@ func bindParams(env *SEnv, names []string, args []Val) {
 	}
 }
 
+// getterUF: the result of a getter is an uninterpreted function of the
+// receiver and argument slots.
+func (vc *VC) getterUF(key string, args []Val, rt types.Type) Val {
+	var sorts, terms []string
+	for _, a := range args {
+		for j, k := range vc.p.lay.of(a.T).Kinds {
+			sorts = append(sorts, k.Sort())
+			terms = append(terms, a.S[j])
+		}
+	}
+	res := Val{T: rt}
+	for i, k := range vc.p.lay.of(rt).Kinds {
+		name := fmt.Sprintf("getter.%s.%d", cleanName(key), i)
+		vc.declareUF(name, "("+strings.Join(sorts, " ")+") "+k.Sort())
+		if len(terms) == 0 {
+			res.S = append(res.S, name)
+		} else {
+			res.S = append(res.S, sx(name, terms...))
+		}
+	}
+	return res
+}
+
 // pureUF models a call of a function with a `pure` contract as an
 // uninterpreted function of its argument slots; the ensures clauses are assumed
 // for this application.
@@ -540,6 +580,7 @@ type modTarget struct {
 	keyT  types.Type
 	valT  types.Type
 	name  string
+	tid   int // kind "type": every object of this dynamic type
 }
 
 func (e *SEnv) modTargets(ms []SExpr) []modTarget {
@@ -594,6 +635,17 @@ func (e *SEnv) modTargets(ms []SExpr) []modTarget {
 				out = append(out, modTarget{kind: "clock"})
 				continue
 			}
+			if id != nil && id.Name == "objects" {
+				// objects("T"): every object whose dynamic type is T (struct, slice
+				// backing array or map)
+				lit, ok := x.Args[0].(*SStr)
+				if !ok {
+					e.fail("objects(\"type\") expects a string literal")
+				}
+				t := e.resolveType(lit.V)
+				out = append(out, modTarget{kind: "type", tid: vc.p.typeID(t)})
+				continue
+			}
 			e.fail("modifies: unsupported target")
 		case *SUn:
 			if x.Op == "*" {
@@ -618,16 +670,61 @@ func (e *SEnv) modTargets(ms []SExpr) []modTarget {
 
 // havocTargets performs a functional havoc of the listed locations.
 func (vc *VC) havocTargets(st *State, ts []modTarget) {
+	hasType := false
+	for _, t := range ts {
+		if t.kind == "type" {
+			hasType = true
+		}
+		if t.kind == "all" {
+			vc.havocAll(st)
+			return
+		}
+	}
+	if hasType {
+		// type-wide footprint: fresh heaps constrained by the frame formula
+		old := st.clone()
+		oldAlloc := vc.get(st, vc.allocKey())
+		var keys []string
+		for k := range vc.keySort {
+			if isHeapKey(k) && k != "alloc" {
+				keys = append(keys, k)
+			}
+		}
+		sort.Strings(keys)
+		for _, k := range keys {
+			vc.havocKey(st, k)
+		}
+		for _, g := range vc.frameGoal(old, st, ts) {
+			vc.assumeRaw(g.goal)
+		}
+		_ = oldAlloc
+		for _, t := range ts {
+			switch t.kind {
+			case "counter", "clock":
+				vc.havocTargets(st, []modTarget{t})
+			}
+		}
+		return
+	}
 	for _, t := range ts {
 		switch t.kind {
 		case "all":
 			vc.havocAll(st)
 		case "slot":
+			byKind := map[Kind]Term{}
+			var order []Kind
 			for i, k := range t.kinds {
-				key := vc.heapKey(k)
-				h := vc.get(st, key)
+				obj, ok := byKind[k]
+				if !ok {
+					obj = tSel(vc.get(st, vc.heapKey(k)), t.ref)
+					order = append(order, k)
+				}
 				f := vc.fresh("hv.slot", k.Sort())
-				vc.set(st, key, tSto2(h, t.ref, tAdd(t.off, tInt(int64(i))), f))
+				byKind[k] = tSto(obj, tAdd(t.off, tInt(int64(i))), f)
+			}
+			for _, k := range order {
+				key := vc.heapKey(k)
+				vc.set(st, key, tSto(vc.get(st, key), t.ref, byKind[k]))
 			}
 		case "obj":
 			for _, k := range allKinds {
@@ -691,7 +788,15 @@ func (vc *VC) frameGoalSkip(old, cur *State, ts []modTarget, skip map[string]boo
 		}
 	}
 	oa := vc.get(old, vc.allocKey())
-	allocd := func(r Term) Term { return tLt(r, oa) }
+	allocd := func(r Term) Term {
+		c := []Term{tLt(r, oa)}
+		for _, t := range ts {
+			if t.kind == "type" {
+				c = append(c, tNot(tEq(sx("dtype", r), tInt(int64(t.tid)))))
+			}
+		}
+		return tAnd(c...)
+	}
 	for _, k := range allKinds {
 		key := vc.heapKey(k)
 		ho, hn := vc.get(old, key), vc.get(cur, key)
@@ -705,15 +810,23 @@ func (vc *VC) frameGoalSkip(old, cur *State, ts []modTarget, skip map[string]boo
 			case "obj":
 				exp = tSto(exp, t.ref, tSel(hn, t.ref))
 			case "slot":
+				// overwrite the listed slots of one object without duplicating terms
+				obj := tSel(exp, t.ref)
+				nobj := tSel(hn, t.ref)
+				changed := false
 				for i, tk := range t.kinds {
 					if tk == k {
 						o := tAdd(t.off, tInt(int64(i)))
-						exp = tSto2(exp, t.ref, o, tSel2(hn, t.ref, o))
+						obj = tSto(obj, o, tSel(nobj, o))
+						changed = true
 					}
+				}
+				if changed {
+					exp = tSto(exp, t.ref, obj)
 				}
 			}
 		}
-		g := fmt.Sprintf("(forall ((r!q Int)) (=> %s (= (select %s r!q) (select %s r!q))))", allocd("r!q"), hn, exp)
+		g := fmt.Sprintf("(forall ((r!q Int)) (! (=> %s (= (select %s r!q) (select %s r!q))) :pattern ((select %s r!q))))", allocd("r!q"), hn, exp, hn)
 		out = append(out, struct {
 			name string
 			goal Term
@@ -738,7 +851,7 @@ func (vc *VC) frameGoalSkip(old, cur *State, ts []modTarget, skip map[string]boo
 				exp = tSto(exp, t.ref, tSel(hn, t.ref))
 			}
 		}
-		g := fmt.Sprintf("(forall ((r!q Int)) (=> %s (= (select %s r!q) (select %s r!q))))", allocd("r!q"), hn, exp)
+		g := fmt.Sprintf("(forall ((r!q Int)) (! (=> %s (= (select %s r!q) (select %s r!q))) :pattern ((select %s r!q))))", allocd("r!q"), hn, exp, hn)
 		out = append(out, struct {
 			name string
 			goal Term
@@ -768,7 +881,7 @@ func (fr *Frame) callIsPure(c *ssa.CallCommon) bool {
 		}
 	}
 	if ct := vc.p.contracts[key]; ct != nil {
-		return ct.Pure || (ct.HasMod && len(ct.Modifies) == 0)
+		return ct.Pure || ct.Getter || (ct.HasMod && len(ct.Modifies) == 0)
 	}
 	return false
 }
